@@ -4,8 +4,9 @@ CONSTANTS
   MaxVer = 1
   MaxReorgs = 2
   MaxCrashes = 0
-  Gated = FALSE
+  Gates = {}
+  Interleave = FALSE
   Cfgs <- MCCfgs
   OraclesFor <- MCOraclesAB
-INVARIANTS TypeOK JobTimeRight JobCoversExactly NoSlotTwice OnlyStrictlyLaterOnStart SyncWindowRight EpochTickOnce NoFutureDutyUnscheduled NoStaleJob ReorgActedOn
+INVARIANTS TypeOK JobTimeRight JobCoversExactly NoSlotTwice OneJobPerDutySlot OnlyStrictlyLaterOnStart SyncWindowRight EpochTickOnce NoFutureDutyUnscheduled NoStaleJob ReorgActedOn
 CHECK_DEADLOCK FALSE
